@@ -11,12 +11,34 @@ PROP = "C10"
 DRIVERS = ["drv_serial"]
 LEAN_TARGETS = ["Pyrtma.Props.C10"]
 LEVEL = "proof"
-MATCHERS: Dict[str, Any] = {}
+
+
+def _f3(clause: str, case: Any) -> bool:
+    """C10-F3: only the round trips that involve a TimeCodeMessageHeader as the header (its to_dict lacks the inherited fields)"""
+    return "timecode_header" in clause and isinstance(case, dict) and bool(case.get("timecode"))
+
+
+MATCHERS: Dict[str, Any] = {"C10-F3": _f3}
+
+
+def _match(clause: str, case: Any):
+    """known_findings.json decides; the slice's own fragment is used until the coordinator has merged it"""
+    import json
+    known = {e["id"]: e for e in C.known_findings(PROP)}
+    frag = C.VERIF / "findings_fragments" / "C10.json"
+    if frag.exists():
+        for e in json.loads(frag.read_text()).get("findings", []):
+            known.setdefault(e["id"], e)
+    for fid, e in known.items():
+        if e.get("status") == "open" and fid in MATCHERS and MATCHERS[fid](clause, case):
+            return fid
+    return None
 TRUSTED = [
     "Lean 4.33.0 kernel; axioms propext / Classical.choice / Quot.sound only (audited by #print axioms)",
-    "harness/serial_corr.py: flattens classes to leaf fields, builds messages through the validated field API",
-    "Python's json module (dumps/loads inverse on the value tree incl. NaN, -0.0, control characters): exercised, not modelled",
-    "ctypes from_buffer_copy / bytes(): value semantics in the model, aliasing checked on the implementation",
+    "harness/serial_corr.py: class descriptors from _fields_ and ctypes offsets, messages built through the validated field API, "
+    "tokenisation of dictionaries, storage scripts on real ctypes objects",
+    "Python's float repr / float(): opaque; tokens are supplied per case and checked against the JSON float grammar",
+    "ctypes from_buffer_copy / bytes(): fresh allocation is the model's assumption, compared with real objects on random scripts",
 ]
 
 STYLES = ["default", "lo", "hi", "zero", "nan", "sparse", "rnd", "rnd", "rnd"]
@@ -67,7 +89,7 @@ def run(res: C.Result, deep: bool):
                 r = out.get(cid)
                 if r is None:
                     raise C.MachineryError(f"driver gave no answer for case {cid}")
-                rc = {"class": cname, "style": style, "subseed": sub,
+                rc = {"class": cname, "style": style, "subseed": sub, "timecode": cid.endswith("tc"),
                       "protocol": [l if len(l) < 400 else l[:400] + "..." for l in blk]}
                 for d in r["corr"]:
                     res.corr_diffs.append({"name": "corr:M5/leaf", "diff": d[:600], "case": rc})
@@ -76,7 +98,7 @@ def run(res: C.Result, deep: bool):
                         cl = v[5:]
                         res.failures.append(C.Failure(clause=cl, case=rc,
                                                       detail=f"{cl}: class {cname} built with style {style}/{sub}",
-                                                      finding=C.match_finding(PROP, cl, rc, MATCHERS)))
+                                                      finding=_match(cl, rc)))
         pending.clear()
 
     import concurrent.futures
@@ -89,6 +111,12 @@ def run(res: C.Result, deep: bool):
         blk = SC.run_case(cid, cls, m)
         lines += blk
         meta[cid] = (cls.__name__, style, sub, blk)
+        if any(l.startswith("HDESC ") for l in blk) and style in ("default", "rnd"):
+            tblk = SC.run_timecode_case(cid + "tc", cls, m)
+            lines += tblk
+            meta[cid + "tc"] = (cls.__name__, style, sub, tblk)
+            ex.setdefault("timecode_header_cases", 0)
+            ex["timecode_header_cases"] += 1
         res.note_case((cls.__name__, style, sub), nontrivial=style != "default")
         res.traces_validated += 1
         seen_cls.add(cls.__name__)
@@ -103,6 +131,13 @@ def run(res: C.Result, deep: bool):
                 k = l.split()[2]
                 ex.setdefault("leaf_kinds", {}).setdefault(k, 0)
                 ex["leaf_kinds"][k] += 1
+            elif l.startswith("HOP "):
+                ex.setdefault("storage_ops", {}).setdefault(l.split()[1], 0)
+                ex["storage_ops"][l.split()[1]] += 1
+            elif l.startswith("FD "):
+                t = l.split(None, 3)
+                ex.setdefault("from_dict_probes", {}).setdefault(t[1], {"ok": 0, "err": 0})
+                ex["from_dict_probes"][t[1]]["err" if t[2].startswith("err") else "ok"] += 1
             elif l.startswith("VER "):
                 ex.setdefault("version_probes", {"refused": 0, "accepted": 0})
                 ex["version_probes"]["refused" if l.endswith(" 1") else "accepted"] += 1
@@ -120,7 +155,10 @@ def run(res: C.Result, deep: bool):
                 "field per validator kind / width / nesting; each built through the validated field API in styles: default, all-min, "
                 "all-max, -0.0/long-then-empty strings, NaN, sparse, random (strings: a long value then a shorter one; control "
                 "characters, quotes; byte arrays all-0x00 / all-0xFF); trips: bytes, dict, json, minified json, dict through json "
-                "text, header+data json (version = hash and 0), copy; version probes {0, hash, hash^1, hash+1, 1, 0xFFFFFFFF}")
+                "text, header+data json (version = hash and 0), copy; version probes {0, hash, hash^1, hash+1, 1, 0xFFFFFFFF}; "
+                "model correspondence per case: whole to_dict(), from_dict on the dictionary / its json.loads image / altered "
+                "dictionaries, well-formedness of the built bytes, JSON text (both layouts, data alone and header+data), "
+                "fromJson, a random storage script; header+data JSON with the time-code header as a case of its own (C10-F3)")
 
 
 def replay(body: Dict[str, Any]) -> int:
@@ -135,7 +173,7 @@ def replay(body: Dict[str, Any]) -> int:
         print("class not found:", case["class"])
         return 2
     m = SC.build(W, cls, random.Random(case["subseed"]), case["style"])
-    blk = SC.run_case("replay", cls, m)
+    blk = SC.run_timecode_case("replay", cls, m) if case.get("timecode") else SC.run_case("replay", cls, m)
     out = C.run_driver("serial", blk)
     print("\n".join(l[:300] for l in blk))
     print("\n".join(out))
